@@ -629,3 +629,35 @@ brk("c10-row-tuple-unwrapped", ["C10"], "src/backend/query_builder.rs",
 brk("c11-numbered-arm-unguarded", ["C11", "C01"], "src/backend/query_builder.rs",
     """                            Some(Token::Unquoted(tok)) if numbered => {""",
     """                            Some(Token::Unquoted(tok)) if numbered || !numbered => {""", "custom:", note="guard still mentions numbered: must be seen through")
+ben("g-benign-window-sep-variable", ["C07", "C08"], "src/backend/query_builder.rs",
+    """        if !window.partition_by.is_empty() {
+            write!(sql, "PARTITION BY ").unwrap();""",
+    """        let mut sep = "";
+        if !window.partition_by.is_empty() {
+            write!(sql, "PARTITION BY ").unwrap();
+            sep = " ";""",
+    edits=[("src/backend/query_builder.rs", """        if !window.partition_by.is_empty() {
+            write!(sql, "PARTITION BY ").unwrap();""", """        let mut sep = "";
+        if !window.partition_by.is_empty() {
+            sep = " ";
+            write!(sql, "PARTITION BY ").unwrap();"""),
+           ("src/backend/query_builder.rs", """        if !window.order_by.is_empty() {
+            write!(sql, " ORDER BY ").unwrap();""", """        if !window.order_by.is_empty() {
+            write!(sql, "{sep}ORDER BY ").unwrap();
+            sep = " ";"""),
+           ("src/backend/query_builder.rs", """                FrameType::Range => write!(sql, " RANGE ").unwrap(),
+                FrameType::Rows => write!(sql, " ROWS ").unwrap(),""", """                FrameType::Range => write!(sql, "{sep}RANGE ").unwrap(),
+                FrameType::Rows => write!(sql, "{sep}ROWS ").unwrap(),""")])
+brk("g-window-sep-not-updated", ["C08"], "src/backend/query_builder.rs",
+    "", "", "C08.R1:grammar:",
+    edits=[("src/backend/query_builder.rs", """        if !window.partition_by.is_empty() {
+            write!(sql, "PARTITION BY ").unwrap();""", """        let mut sep = "";
+        if !window.partition_by.is_empty() {
+            sep = " ";
+            write!(sql, "PARTITION BY ").unwrap();"""),
+           ("src/backend/query_builder.rs", """        if !window.order_by.is_empty() {
+            write!(sql, " ORDER BY ").unwrap();""", """        if !window.order_by.is_empty() {
+            write!(sql, "{sep}ORDER BY ").unwrap();"""),
+           ("src/backend/query_builder.rs", """                FrameType::Range => write!(sql, " RANGE ").unwrap(),
+                FrameType::Rows => write!(sql, " ROWS ").unwrap(),""", """                FrameType::Range => write!(sql, "{sep}RANGE ").unwrap(),
+                FrameType::Rows => write!(sql, "{sep}ROWS ").unwrap(),""")])
